@@ -178,6 +178,71 @@ def generate(seed, tier):
     cases += copy_cases(rng, tier)
     cases += dag_cases(rng, tier)
     cases += obs_cases(rng, tier)
+    cases += dagobs_cases(rng, tier)
+    return cases
+
+
+def dagobs_cases(rng, tier):
+    """the DAG observer: node objects 0..n-1, edge objects; a random DAG (sometimes closed into a cycle) built through
+    addFather / addSon / link with and without edge objects (fresh, attached elsewhere, none); removals, re-rootings,
+    copies of the observer (copy constructor, clone, operator=), validity / rootedness queries in between"""
+    cases = []
+    nobs = 1200 if tier == "thorough" else 260
+    for i in range(nobs):
+        n = rng.randint(1, 6)
+        ops = ["w.createNode %d" % a for a in range(n)]
+        free_obj = list(range(12)); rng.shuffle(free_obj)
+        def obj():
+            r = rng.random()
+            if r < 0.2:
+                return "-"
+            if r < 0.8 and free_obj:
+                return str(free_obj.pop())
+            return str(rng.randrange(12))
+        perm = list(range(n)); rng.shuffle(perm)
+        for _ in range(rng.randint(0, 2 * n)):
+            a, b = rng.randrange(n), rng.randrange(n)
+            if rng.random() < 0.85 and a != b:
+                # along a topological order: no cycle
+                if perm.index(a) > perm.index(b):
+                    a, b = b, a
+            w = rng.random()
+            if w < 0.4:
+                ops.append("w.addSon %d %d %s" % (a, b, obj()))
+            elif w < 0.8:
+                ops.append("w.addFather %d %d %s" % (b, a, obj()))
+            else:
+                ops.append("w.link %d %d %s" % (a, b, obj()))
+        ops += ["w.valid", "w.rooted"]
+        for _ in range(rng.randint(3, 14)):
+            r = rng.random()
+            a, b = rng.randint(0, n), rng.randint(0, n)
+            if r < 0.14:
+                ops.append("w.addSon %d %d %s" % (a, b, obj()))
+            elif r < 0.28:
+                ops.append("w.addFather %d %d %s" % (a, b, obj()))
+            elif r < 0.36:
+                ops.append(rng.choice(["w.removeSon %d %d", "w.removeFather %d %d", "w.unlink %d %d"]) % (a, b))
+            elif r < 0.42:
+                ops.append(rng.choice(["w.removeSons %d", "w.removeFathers %d"]) % a)
+            elif r < 0.46:
+                ops.append("w.deleteNode %d" % a)
+            elif r < 0.58:
+                ops += ["w.rootAt %d" % a, "w.rooted", "w.valid"]
+            elif r < 0.66 and i % 2 == 0:
+                j, k2 = rng.randint(0, 2), rng.randint(0, 2)
+                ops.append(rng.choice(["w.copy %d %d" % (j, k2), "w.clone %d %d" % (j, k2), "w.assign %d %d" % (j, k2)]))
+                ops += ["w.sel %d" % rng.randint(0, 2), "w.qn %d" % a]
+            elif r < 0.76:
+                ops.append(rng.choice(["w.valid", "w.rooted"]))
+            elif r < 0.86:
+                ops.append("w.qn %d" % a)
+            elif r < 0.92:
+                ops.append("w.qe %d" % rng.randrange(12))
+            else:
+                ops.append("w.below %d" % a)
+        ops += ["w.valid", "w.rooted", "w.below %d" % rng.randrange(n)]
+        cases.append(["case dagobs%d obsdag" % i] + ops)
     return cases
 
 
